@@ -1078,9 +1078,29 @@ fn dollar_token_to_placeholder(input: TokenStream) -> TokenStream {
 #[derive(Default)]
 struct TemplateOf<T>(T);
 
+/// A fragment substituted by `macro_rules!` (`$e:expr`, `$t:ty`, ..) arrives as a group without delimiters.
+/// Such a group is a single operand: it is written with parentheses so that it stays one.
+fn undelimited_group_to_paren(input: TokenStream) -> TokenStream {
+    let mut ts = TokenStream::new();
+    for i in input {
+        if let TokenTree::Group(g) = &i {
+            let delimiter = match g.delimiter() {
+                proc_macro2::Delimiter::None => proc_macro2::Delimiter::Parenthesis,
+                d => d,
+            };
+            let mut g = proc_macro2::Group::new(delimiter, undelimited_group_to_paren(g.stream()));
+            g.set_span(i.span());
+            ts.extend(g.to_token_stream())
+        } else {
+            ts.extend(i.to_token_stream());
+        }
+    }
+    ts
+}
+
 impl<T: Parse> Parse for TemplateOf<T> {
     fn parse(input: syn::parse::ParseStream) -> Result<Self> {
-        let ts = dollar_token_to_placeholder(input.parse()?);
+        let ts = dollar_token_to_placeholder(undelimited_group_to_paren(input.parse()?));
         let span = ts.span();
         let value = parse2::<T>(ts.clone())?;
         // `$` is replaced by a parenthesized expression: it must stand where an expression can.
